@@ -89,6 +89,7 @@ func runCluster(cc ClusterCheck) int {
 				agg.Crashes = append(agg.Crashes, "bad result: "+err.Error())
 				return
 			}
+			attachItem(res.Viol, "cluster", raw[r.Index])
 			agg.Execs += res.Execs
 			agg.Steps += res.Steps
 			agg.Pruned += res.Pruned
